@@ -1,4 +1,6 @@
 import Bmc.Proofs.C04
+import Bmc.Proofs.GenLoops.BuildAndSend
+import Bmc.Proofs.GenDec.V2Session
 import Bmc.Proofs.GenDec.AES128CBC
 import Bmc.Proofs.GenDec.Message
 #print axioms Bmc.Proofs.C04.accept_sound
@@ -7,5 +9,11 @@ import Bmc.Proofs.GenDec.Message
 #print axioms Bmc.Proofs.C04.tampered_authcode_is_retry
 #print axioms Bmc.Proofs.C04.rmcp_header_cannot_change_the_value
 #print axioms Bmc.Proofs.C04.response_with_any_header
+#print axioms Bmc.Proofs.GenLoops.V2Session_buildAndSend_gen_eq
+#print axioms Bmc.Proofs.GenLoops.V2Session_buildAndSend_events_eq
+#print axioms Bmc.Proofs.GenLoops.V2Session_buildAndSend_expired_context
+#print axioms Bmc.Proofs.GenLoops.V2Session_SendCommand_gen_eq
+#print axioms Bmc.Proofs.GenLoops.V2Session_SendCommand_events_eq
+#print axioms Bmc.Proofs.GenDec.V2Session_gen_eq
 #print axioms Bmc.Proofs.GenDec.AES128CBC_gen_eq
 #print axioms Bmc.Proofs.GenDec.Message_gen_eq
